@@ -101,4 +101,30 @@ def run(run, replay=None):
             run.failed[-1]["cex_finder"] = lambda f: cex.find(run, f)
     else:
         run.undecided.append("kani %s: %s %s" % (h, r.status, r.log_tail[-400:].replace('\n', ' ') if r.status == 'ERROR' else ''))
-    run.assumptions.append("BOUNDED: only documents up to the stated size; FileCache::incremental_update (lock, VFS, re-lex) and 'the server keeps running' are not carried beyond: the returned index is in range and on a char boundary, which is what String::replace_range requires.")
+    # ---- second bounded stand-in: the document copy after didChange notifications (run-time-checked contract) -------
+    import json, subprocess, time
+    from vlib import replay as rp
+    from vlib.extract import Source as _S
+    run.functions.append(_S(run.repo, 'crates/els/file_cache.rs').fn('incremental_update', impl=r'FileCache').describe())
+    binary = rp.build(run, 'c28b', deps=('els',), cfg_hook=True)
+    n = 2 if run.tier != 'thorough' else 3
+    t0 = time.time()
+    p = subprocess.run([binary, str(n)], capture_output=True, text=True, timeout=7200)
+    try:
+        js = json.loads(p.stdout.strip().split('\n')[-1])
+    except Exception:
+        raise Undecided("c28b exploration produced no result: " + p.stderr[-300:])
+    run.solver_time_s += time.time() - t0
+    b2 = "every document of up to %d characters over {a, e-acute, an astral character, LF}; one didChange notification with one change (all) or two changes (all pairs for documents up to 1 character, every 7th pair otherwise); ranges with line <= 2, character <= 3; new text one of '', 'x', LF" % n
+    if js["violation"]:
+        run.add_obligation("incremental_update|contract|server copy == client copy", 'runtime-contract', False, detail={"msg": js["violation"]},
+                           cex={"found": True, "how": "exhaustive enumeration of didChange notifications delivered to the real FileCache::incremental_update through the guarded hook; the client side is an independent LSP reference editor",
+                                "input": js["violation"].split(': server copy')[0].split(': the server panics')[0], "real_result": js["violation"], "oracle": "LSP: each change of a notification applies to the document as modified by the previous ones; UTF-16 columns; past end of line clamps",
+                                "verdict": "the server's copy of the document differs from the client's (or the server panics)", "replay_cmd": "%s %d" % (binary, n)})
+    else:
+        run.add_obligation("incremental_update: server copy == client copy [BOUNDED: %s]" % b2, 'runtime-contract', True, cmd="%s %d" % (binary, n))
+    run.extra.update({"evaluations": js["notifications"], "distinct_nontrivial": js["distinct_results"],
+                      "rule": "run-time-checked contract on FileCache::incremental_update: " + b2 + "; distinct_nontrivial = distinct resulting documents",
+                      "samples_notifications": js["samples"]})
+    run.bounded_note = bound + " || " + b2
+    run.assumptions.append("BOUNDED: only documents up to the stated size; histories of several notifications, full-document sync, and the rest of the server loop are not carried.")
